@@ -222,6 +222,16 @@ where
                 return Outcome::fail(json!({}), "harness label mismatch");
             }
             let sig = wrap_sig::<C>(&label, pt);
+            // the honest tuple behind this vector is verified first (same thread): base signature, its own key and message
+            {
+                let b = &v["sig"]["base"];
+                let (bl, bk) = (gets(b, "scheme"), geti(b, "k"));
+                if bl != "PopProof" {
+                    let bm = lib.msg::<C>(&b["msg"]);
+                    let bs = wrap_sig::<C>(bl, lib.sign_pt::<C>(bk, bl, &bm));
+                    let _ = bs.verify(&lib.sk::<C>(bk).public_key(), &bm).is_ok();
+                }
+            }
             let r = sig.verify(&pk, &msg);
             let got = res_class(&r);
             let mut o = check_class(v, got, json!({"res": got.0, "err": got.1}));
